@@ -241,6 +241,19 @@ Theorem C14_struct_concat_spec : forall s vals t,
 Proof. exact struct_concat_spec. Qed.
 Print Assumptions C14_struct_concat_spec.
 
+(* concatenation mode, drivers of ANY width: `component <<= driver` truncates / zero-extends each
+   driver to its declared field width (resize); the components read back are these normalised wires
+   and the whole is THEIR msb-first concatenation (not the raw drivers'), hence every component is
+   again exactly its bit range of the whole (well_sliced) *)
+Theorem C14_struct_concat_norm : forall s vals t,
+  concat_comp s vals = Some t -> children s <> [] ->
+  map croot (ckids t) = norm_vals (children s) vals /\
+  croot t = concat_msb (norm_vals (children s) vals) /\
+  length (croot t) = sbw s /\
+  well_sliced s t.
+Proof. exact struct_concat_norm. Qed.
+Print Assumptions C14_struct_concat_norm.
+
 (* ================= no spurious errors: documented uses do not raise ================= *)
 Theorem C14_sparse_mux_ok : forall sel vals dflt,
   (1 <= length sel)%nat -> NoDup (map fst vals) ->
@@ -344,5 +357,8 @@ Proof. vm_compute. reflexivity. Qed.
 Example C14_example_chop_struct :
   option_map (map to_Z) (chop (of_Z 6 45) [1; 3; 2]%nat) = Some [1; 3; 1] /\
   option_map (map to_Z) (partition_wire (of_Z 6 45) 2) = Some [1; 3; 2] /\
-  map to_Z (cflat (slice_comp (SStruct [SLeaf 1; SMatrix (SLeaf 2) 2; SLeaf 1]) (of_Z 6 45))) = [45; 1; 6; 1; 2; 1].
+  map to_Z (cflat (slice_comp (SStruct [SLeaf 1; SMatrix (SLeaf 2) 2; SLeaf 1]) (of_Z 6 45))) = [45; 1; 6; 1; 2; 1] /\
+  (* a 2-bit driver into a 3-bit field and a 5-bit driver into a 2-bit field *)
+  option_map (fun t => map to_Z (cflat t)) (concat_comp (SStruct [SLeaf 3; SLeaf 2]) [of_Z 2 3; of_Z 5 30])
+    = Some [14; 3; 2].
 Proof. vm_compute. repeat split; reflexivity. Qed.
